@@ -84,6 +84,26 @@ def scalar (op : String) (args : List ArgV) : Val :=
   | "minimum", [a, b] => arith2 (fun x y => some (if y < x then y else x)) a b
   | "fmax", [a, b] => if a.isNull then b else if b.isNull then a else arith2 (fun x y => some (if x < y then y else x)) a b
   | "fmin", [a, b] => if a.isNull then b else if b.isNull then a else arith2 (fun x y => some (if y < x then y else x)) a b
+  | "is_nan", [a] => .bool a.isNull
+  | "is_inf", [_] => .bool false
+  | "concat", [.str a, .str b] => .str (a ++ b)
+  | "trimstr", [.str s, .num i, .num j] =>
+    if i.den == 1 && j.den == 1 && i.num ≥ 0 && j.num ≥ 0 then
+      .str (String.ofList ((s.toList.drop i.num.toNat).take (j.num.toNat - i.num.toNat)))
+    else .null
+  | "around", [a, .num k] =>
+    (match num? a with
+     | some x =>
+       if k.den == 1 && k.num ≥ 0 then
+         let p : Rat := ratPow 10 k.num.toNat
+         let y := x * p
+         let f : Int := y.floor
+         let d := y - f
+         -- numpy.around: round half to even
+         let r : Int := if d < 1/2 then f else if d > 1/2 then f + 1 else (if f % 2 == 0 then f else f + 1)
+         .num ((r : Rat) / p)
+       else .null
+     | none => .null)
   | "is_null", [a] => .bool a.isNull
   | "is_bad", [a] => .bool a.isNull
   | "coalesce", [a, b] => if a.isNull then b else a
@@ -99,7 +119,7 @@ def scalar (op : String) (args : List ArgV) : Val :=
 def supportedScalar : List String :=
   ["+", "*", "-", "/", "%/%", "//", "%", "mod", "**", "==", "!=", "<", "<=", ">", ">=", "and", "or", "abs", "sign",
    "floor", "ceil", "maximum", "minimum", "fmax", "fmin", "is_null", "is_bad", "coalesce", "if_else", "where",
-   "is_in", "mapv"]
+   "is_in", "mapv", "is_nan", "is_inf", "concat", "trimstr", "around"]
 
 /-! ### aggregates (nulls skipped) -/
 def nonNull (vs : List Val) : List Val := vs.filter (fun v => !v.isNull)
